@@ -145,6 +145,12 @@ def _inline_once_temps(fn):
     return fn
 
 
+def straighten(fn):
+    """a copy of a function with tuple assignments split, `if c: T = a else: T = b` as a conditional expression, successive stores into
+    a fresh dict as the display, and a value hoisted into a once-used local back in place (the everyday re-spellings of ONE store)"""
+    return _inline_once_temps(_fold_cond_assigns(_join_dict_stores(_untuple(copy.deepcopy(fn)))))
+
+
 def straightened(pkg, cls, meth, keep=()):
     """a private copy of method `cls.meth` for the rules that read one stored setting per statement: helpers put back, tuple
     assignments split, `if c: T = a else: T = b` as a conditional expression, a value hoisted into a once-used local back in place"""
